@@ -361,9 +361,14 @@ def pw(a, b):
             return sqrt(a)
     if isinstance(a, (Cx, complex)) or isinstance(b, (Cx, complex)):
         raise Unsupported('complex power')
-    x, p = zreal(a), zreal(b)
-    r = Ghost.fn('rpow', 2)(x, p)
-    _side(z3.Implies(x > 0, r > 0))
+    x, p = z3.simplify(zreal(a)), z3.simplify(zreal(b))
+    rp = Ghost.fn('rpow', 2)
+    r = rp(x, p)
+    # library facts about real powers of a positive base: positivity, x^p = x^(p-1) x, x^(p+1) = x^p x, (a^b)^c = a^(bc) (and = a when bc = 1)
+    _side(z3.Implies(x > 0, z3.And(r > 0, r == rp(x, p - 1) * x, rp(x, p + 1) == r * x, rp(x, z3.RealVal(1)) == x, rp(x, z3.RealVal(0)) == 1)))
+    if z3.is_app(x) and x.decl().name() == 'rpow':
+        a0, b0 = x.arg(0), x.arg(1)
+        _side(z3.Implies(a0 > 0, z3.And(r == rp(a0, b0 * p), z3.Implies(b0 * p == 1, r == a0))))
     return r
 
 
